@@ -81,8 +81,15 @@ def shapes(r, tier):
         # more than 127 variants before a later run: the offset literal overflows i8
         add('holes_big_prefix', list(range(lo, lo + 130)) + [lo + 135, lo + 136, lo + 140])
         add('holes_whole_but_one', [v for v in range(lo, hi + 1) if v != lo + 100])
+        add('gapless_128', range(0, 128) if not s else range(-128, 0))
     else:
         add('gapless_257', range(0, 257))
+        # variant counts equal to the size of a narrower type: nothing about the repr follows from the count
+        add('gapless_256', range(0, 256))
+        add('gapless_256_off', range(100, 356))
+        add('gapless_255', range(1, 256))
+        add('gapless_128', range(0, 128))
+        add('holes_256_variants', list(range(0, 255)) + [300])
         add('holes_300', list(range(0, 300)) + list(range(400, 406)))
         b = -150 if s else 1000
         add('gapless_300_off', range(b, b + 300))
@@ -211,6 +218,11 @@ def make_decl(r, label, values, order, spelling, naming, rnd, vis='pub'):
         for i, v in enumerate(vals):
             nm = odd[i % len(odd)] + ('' if i < len(odd) else str(i))
             names[v] = nm
+    elif naming == 'featnames':
+        # identifiers equal to the default names of derived items; MAX / MIN deliberately not at the extremes
+        fn = ['next', 'MAX', 'iter', 'MIN', 'as_str', 'try_from', 'into', 'names', 'range', 'from_str', 'next_back']
+        for i, v in enumerate(vals):
+            names[v] = fn[i % len(fn)] + ('' if i < len(fn) else str(i))
     elif naming == 'dup' and n >= 3:
         renames[vals[0]] = 'same'
         renames[vals[n // 2]] = 'same'
@@ -315,6 +327,7 @@ def rust_str(s):
     return ''.join(out)
 
 def render_enum(decl, cfg, name='E', derives='Clone, Copy, EnumTools', extra_attrs=(), sorted_attr=None):
+    name = decl.get('enum_name', name)
     lines = ['#[derive(%s)]' % derives]
     lines += list(extra_attrs)
     lines += list(decl.get('enum_attrs', []))
